@@ -170,14 +170,22 @@ func runEntry(env *zygo.Zlisp, e int, src string, budget int64) (string, *panicI
 		}
 		return "?"
 	})
-	// leave the interpreter in a usable state, the way an embedding program would
+	// leave the interpreter in a usable state, the way an embedding program would, and USE it once
+	// more after a text that ended inside a form / comment / raw string: a hang or panic of the
+	// follow-up call (still under this input's watchdog) belongs to this input
 	_, pi2 := guard(func() string {
 		env.VerifParser().Reset()
 		env.Clear()
+		if obs == ObsMore || (obs == ObsError && (strings.Contains(src, "/*") || strings.Contains(src, "`"))) {
+			zygo.VerifSetBudget(1000)
+			env.EvalString("(+ 1 2)")
+			env.VerifParser().Reset()
+			env.Clear()
+		}
 		return ""
 	})
 	if pi == nil && pi2 != nil {
-		pi2.msg = "(during Clear/Reset after the call) " + pi2.msg
+		pi2.msg = "(during Reset/Clear/follow-up evaluation after the call) " + pi2.msg
 		return ObsPanic, pi2
 	}
 	return obs, pi
@@ -515,7 +523,7 @@ func workerMain(st Stream, from, to int, progressPath, resultPath string, budget
 	if only >= 0 {
 		entries = []int{only}
 	}
-	tie := st.Name() == "forms" || st.Name() == "mutants" || strings.HasPrefix(st.Name(), "file:")
+	tie := st.Name() == "forms" || st.Name() == "mutants" || st.Name() == "infix" || strings.HasPrefix(st.Name(), "file:")
 	if only >= 0 {
 		tie = false
 	}
